@@ -54,7 +54,7 @@ structure Agent where
   lastId : Nat
   disk : Bool                -- --cache-dir given
   saveFirst : Bool           -- SaveSecondsImmediately
-  memSize : Nat              -- historicBucketsDataSize, in units of one second's compressed data (ballast included)
+  memSize : Nat              -- historicBucketsDataSize in bytes (ballast included)
   ballast : Nat              -- part of memSize that stands for other queued data (an input: lets the limit be reached cheaply)
   diskOk : Bool              -- config.MaxHistoricDiskSize > 0 and the disk accepts writes
   flights : List Flight
@@ -130,9 +130,12 @@ def diskErase (a : Agent) (id : Nat) : Agent :=
   if id == 0 then a else { a with recs := a.recs.filter (fun r => r.id != id) }
 
 /-- MaxHistoricBucketsMemorySize / NumShards, in the same units -/
-def memLimit : Nat := 1000
+def memLimit : Nat := 1000 * secBase
+/-- size of the framed data of second t as the harness generates it: a base bucket plus t % 3 further rows (seconds of
+different sizes follow each other in the historic queue, as they do in production) -/
+def dataSize (t : Nat) : Nat := secBase + (t % 3) * secRow
 /-- len(cbd.data) -/
-def sz (c : Cbd) : Nat := if c.mem then 1 else 0
+def sz (c : Cbd) : Nat := if c.mem then dataSize c.sec else 0
 def overflows (a : Agent) (c : Cbd) : Bool := decide (a.memSize + sz c > memLimit)
 
 /-- appendHistoricBucketsToSend -/
